@@ -14,8 +14,9 @@ ALL_TYPES = 2147483647
 FMT_COQ = {"raw": "FRaw", "json": "FJson", "quicklogger": "FQL"}
 
 
-def run_impl(cases: List[dict], nproc: int = NCPU, timeout: int = 1800) -> List[dict]:
-    """Run the real DataCollection on the cases (subprocess workers, results in order)."""
+def run_impl(cases: List[dict], nproc: int = NCPU, timeout: int = 1800, src: Optional[str] = None) -> List[dict]:
+    """Run the real DataCollection on the cases (subprocess workers, results in order).
+    src: alternative source root (a patched copy of /repo/src) instead of the working tree."""
     if not cases:
         return []
     nproc = max(1, min(nproc, (len(cases) + 7) // 8))
@@ -23,7 +24,8 @@ def run_impl(cases: List[dict], nproc: int = NCPU, timeout: int = 1800) -> List[
 
     def work(ch):
         p = subprocess.run([PY, str(VERIF / "vlib" / "logger_worker.py")], input=json.dumps(ch),
-                           capture_output=True, text=True, env=impl_env(), timeout=timeout, cwd="/")
+                           capture_output=True, text=True,
+                           env=impl_env(dict(PYTHONPATH=src) if src else None), timeout=timeout, cwd="/")
         if p.returncode != 0:
             raise RuntimeError("logger_worker failed: " + p.stderr[-1500:])
         return json.loads(p.stdout)
@@ -37,7 +39,7 @@ def run_impl(cases: List[dict], nproc: int = NCPU, timeout: int = 1800) -> List[
     return out  # type: ignore
 
 
-def explore(base_case: dict, budget: int, max_depth: int = 10 ** 9) -> Tuple[List[dict], List[dict], bool]:
+def explore(base_case: dict, budget: int, max_depth: int = 10 ** 9, src: Optional[str] = None) -> Tuple[List[dict], List[dict], bool]:
     """Stateless exhaustive exploration of the schedules of one recorder program on the REAL code.
 
     Runs the case with a schedule prefix, reads back the executed trace and the decision indices at which
@@ -54,7 +56,7 @@ def explore(base_case: dict, budget: int, max_depth: int = 10 ** 9) -> Tuple[Lis
         batch = frontier[:max(1, min(len(frontier), budget - len(cases), 256))]
         frontier = frontier[len(batch):]
         bc = [dict(base_case, sched=p) for p in batch]
-        rs = run_impl(bc)
+        rs = run_impl(bc, src=src)
         for p, c, r in zip(batch, bc, rs):
             c = dict(c, sched=r["trace"])     # the full executed trace IS the schedule
             cases.append(c)
@@ -144,7 +146,9 @@ Fixpoint tl_eqb (a b : list tid) : bool :=
 Definition out_files (d : dstate) : list Z :=
   Z.of_nat (length (d_files d)) ::
   flat_map (fun f => [Z.of_nat (f_session f); Z.of_nat (f_sub f); Z.of_nat (length (f_msgs f))] ++ map m_id (f_msgs f)) (d_files d).
+(* first element: the ghost flag g_stale (the harness recomputes it from the real run on its own) *)
 Definition out (s : state) : list Z :=
+  (if g_stale s then 1 else 0) ::
   match s_crash s with
   | Some R => [1] | Some W => [2]
   | None => [0; Z.of_nat (s_warn s)] ++ flat_map out_files (s_ds s)
@@ -159,9 +163,10 @@ Definition check_case (c : list cfg * list op * list tid * list Z) : bool :=
 
 def impl_flat(case: dict, res: dict) -> List[int]:
     """the observable output of a real run, in the layout of `out` above"""
+    st = 1 if res.get("stale") else 0
     if res.get("crash"):
-        return [1 if res["crash"]["tid"] == 0 else 2]
-    out = [0, res["warnings"]]
+        return [st, 1 if res["crash"]["tid"] == 0 else 2]
+    out = [st, 0, res["warnings"]]
     for d in case["datasets"]:
         fl = res["files"].get(d["name"], [])
         out.append(len(fl))
